@@ -128,4 +128,32 @@ PROPS = {
         "rule": "random Put/Remove/tick/Close+reopen/RangeKeys histories over 3-7 keys (values nil, empty, short, long) on leveldb.DB, leveldb.SerialDB, memorydb and the sharded persister over each (2,3,5 shards), MaxBatchSize 1..100, real LevelDB directories, timer flushes by real waiting (BatchDelaySeconds=1); Get/Has of every key after every operation; distinct = distinct (operation kind, full read-back) pairs",
         "assumptions": ["goleveldb contract: Write(batch) applies the batch atomically and in order, Get/Has/NewIterator read the applied writes, Close/Open preserve them", "timer flush is modelled as an explicit tick event; the harness waits BatchDelaySeconds+0.35s for it"],
     },
+    "C16": {
+        "theorems": [],
+        "modules": ["SV.Props.C16"],
+        "runs": [{"component": "unit", "thorough_seeds": 2}],
+        "rule": 'random Put/Get/Has/Remove/ClearCache/GetBulk histories on storageUnit.Unit over every cacher the factory builds (LRU, SizeLRU, FIFOSharded) at capacities 1-6, over memorydb behind a fault-injecting wrapper (Put/Get/Remove rejected at random positions) and over real leveldb.DB / SerialDB; after every operation the injected cacher is read back (Keys/Peek) and fed to the model as the eviction outcome; distinct = distinct (operation kind, canonical output) pairs',
+        "assumptions": ['the cacher is modelled as ANY cache that only returns what was put and not removed since (its eviction outcome is an input)', 'persister = map with a fault oracle'],
+    },
+    "C17": {
+        "theorems": [],
+        "modules": ["SV.Props.C17"],
+        "runs": [{"component": "adapter", "thorough_seeds": 2}],
+        "rule": 'random Put/Get/Has/Peek histories on storageCacherAdapter over the real capacityLRU (item capacities 1-4, byte capacities 1..100000, sizes 0..1000, re-puts with other sizes) and memorydb / real LevelDB; each key bound to one immutable value; distinct = distinct (operation kind, canonical output) pairs',
+        "assumptions": ['values serialise to >= 1 byte (the adapter skips empty serialisations); sizes are >= 0 (negative sizes are rejected by the LRU)'],
+    },
+    "C20": {
+        "theorems": [],
+        "modules": ["SV.Props.C20"],
+        "runs": [{"component": "fifo", "thorough_seeds": 2}],
+        "rule": 'random Put/HasOrAdd/Get/Remove/Clear/Register/UnRegister histories on fifocache.NewShardedCache, 1-4 shards, sizes from 2 slots per shard; per-shard Keys order compared exactly with one shard; thorough adds all 12^5 histories over 4 keys (one shard, size 3); distinct = distinct (operation kind, canonical output) pairs',
+        "assumptions": ['multiversx/concurrent-map v0.1.4 is modelled from its source (age-ordered view of the ring); keys are non-empty'],
+    },
+    "C18": {
+        "theorems": [],
+        "modules": ["SV.Props.C18"],
+        "runs": [{"component": "timecache", "thorough_seeds": 2}],
+        "rule": 'histories of Add/AddWithSpan/Upsert/Put/HasOrAdd/Remove/Sweep/sleep on TimeCache, peerTimeCache and timeCacher with every call bracketed by monotonic clock readings fed to the model (two exact models bound the unknown reading: must/may); spans 40-300 ms (1 s for timeCacher); a liveness probe for the self-sweeper; distinct = distinct (operation kind, canonical output) pairs',
+        "assumptions": ['clock readings are only known up to the bracket taken around each call; the model answers three-valued and the implementation must be inside', 'time.Now is monotone'],
+    },
 }
